@@ -5,14 +5,14 @@ from .core import ob
 CADICAL = ["--sat-solver", "cadical"]
 
 # ----------------------------------------------------------------------------- hbitio.c: Hbitseek, HIwrite2read, HIread2write
-BSW = dict(unit="hbitio_sw_u.c", file="hdf/src/hbitio.c", objbits=10, cex_unwind=2,
+BSW = dict(unit="hbitio_sw_u.c", file="hdf/src/hbitio.c", objbits=10, cex_unwind=2, flags=["--arrays-uf-always"],
            trusted=["ghost element behind Hwrite/Hread/Hseek: length, position, value of ONE ghost byte; a range read is checked "
                     "for accessibility and havocked except that byte", "HAatom_object: the harness-built record for its id",
                     "A-BIT-2G: max_offset <= 2^31-1 - 2*BITBUF_SIZE"])
 _SEEK = {"w_inblock": (1, "write mode, target inside the buffered block"),
          "w_full": (2, "write mode, target in another block that holds a full BITBUF_SIZE of data"),
          "w_tail": (3, "write mode, target in another block that holds fewer than BITBUF_SIZE bytes of data"),
-         "r": (4, "read mode"), "badargs": (5, "rejected arguments, both modes")}
+         "r": (4, "read mode"), "badargs_w": (5, "rejected arguments, write mode"), "badargs_r": (6, "rejected arguments, read mode")}
 for _n, (_d, _txt) in _SEEK.items():
     ob(f"bit_seek_{_n}", "C05", entry="h_bitseek", enforce="Hbitseek", defines=[f"SEEK_DOM={_d}"], timeout=300,
        domain=_txt, **BSW)
